@@ -87,6 +87,23 @@ func (r *oRS) Read(p []byte) (int, error) {
 	return int(k), nil
 }
 
+// ReadAt: a caller's ReadSeeker may implement more than the library asks for (files, mmap-like and ranged readers are
+// io.ReaderAt too). This one uses the freedom the io.ReaderAt contract leaves: a read that ends exactly at the end of
+// the source returns len(p) together with io.EOF. Whatever the library does with it, the results must be the same.
+func (r *oRS) ReadAt(p []byte, off int64) (int, error) {
+	if off < 0 {
+		return 0, fmt.Errorf("negative offset")
+	}
+	if off >= int64(len(r.data)) {
+		return 0, io.EOF
+	}
+	n := copy(p, r.data[off:])
+	if n < len(p) || off+int64(n) == int64(len(r.data)) {
+		return n, io.EOF
+	}
+	return n, nil
+}
+
 func (r *oRS) Seek(off int64, whence int) (int64, error) {
 	var abs int64
 	switch whence {
